@@ -149,7 +149,7 @@ def r_rpwidth(db, rep):
                      "%s sizes identifier storage with %s instead of bits(rules + terminals): the largest rule identifier may not fit" % (f.qn, canon(s)), f.qn)
 
 
-@rule("R-RPGAP", 6, "gap pointers: the compressor stores -target-1 in the cell after a replaced pair; every compaction loop that walks "
+@rule("R-RPGAP", 4, "gap pointers: the compressor stores -target-1 in the cell after a replaced pair; every compaction loop that walks "
                     "the compressed array decodes a negative cell v as -(v+1) and advances on every path")
 def r_rpgap(db, rep):
     rp = db.fn("IRePair::repair")
